@@ -68,6 +68,10 @@ type goPkg struct {
 	// ImportedMentions: unit -> bare names of the objects of OTHER packages (types, functions, constants,
 	// globals, methods of imported types) its declaration mentions; these are never same-package dependencies
 	ImportedMentions map[int]map[string]bool
+	// PlainConvUser: the unit is a function that passes a struct where an interface is expected, and every such call is
+	// itself a statement of the function body, the single right-hand side of an assignment / define there, a returned
+	// expression, or the left operand of a returned binary expression (top level of the body, not nested in a condition)
+	PlainConvUser map[int]bool
 }
 
 func pkgBase(p string) string {
@@ -431,6 +435,70 @@ func (p *goPkg) analyzeDeps(srcImp types.ImporterFrom) {
 				}
 				return true
 			})
+		}
+	}
+	// plain users of struct-to-interface conversions
+	p.PlainConvUser = map[int]bool{}
+	passesStruct := func(c *ast.CallExpr) bool {
+		sig, _ := info.TypeOf(c.Fun).(*types.Signature)
+		if sig == nil {
+			return false
+		}
+		hasIface := false
+		for k := 0; k < sig.Params().Len(); k++ {
+			if _, ok := sig.Params().At(k).Type().Underlying().(*types.Interface); ok {
+				hasIface = true
+			}
+		}
+		if !hasIface {
+			return false
+		}
+		for _, a := range c.Args {
+			if nt, _ := info.TypeOf(a).(*types.Named); nt != nil {
+				if _, ok := nt.Underlying().(*types.Struct); ok {
+					return true
+				}
+			}
+		}
+		return false
+	}
+	for i := range p.Units {
+		fd, ok := p.Units[i].node[0].(*ast.FuncDecl)
+		if !ok || fd.Body == nil {
+			continue
+		}
+		all := 0
+		ast.Inspect(fd.Body, func(x ast.Node) bool {
+			if c, ok := x.(*ast.CallExpr); ok && passesStruct(c) {
+				all++
+			}
+			return true
+		})
+		plain := 0
+		direct := func(e ast.Expr) {
+			if c, ok := e.(*ast.CallExpr); ok && passesStruct(c) {
+				plain++
+			}
+		}
+		for _, st := range fd.Body.List {
+			switch st := st.(type) {
+			case *ast.ExprStmt:
+				direct(st.X)
+			case *ast.AssignStmt:
+				if len(st.Rhs) == 1 {
+					direct(st.Rhs[0])
+				}
+			case *ast.ReturnStmt:
+				for _, res := range st.Results {
+					direct(res)
+					if b, ok := res.(*ast.BinaryExpr); ok {
+						direct(b.X)
+					}
+				}
+			}
+		}
+		if all > 0 && all == plain {
+			p.PlainConvUser[i] = true
 		}
 	}
 	total := len(p.Units) + nConv
